@@ -586,6 +586,27 @@ func main() {
 		}
 	}
 
+	// ---- 3c. member references resolve to the member of exactly that name: names that differ only in letter case, a
+	// prefix of another name, the enum's own name; referenced both before and after the look-alike in declaration order
+	for _, base := range []string{"uint8", "int16", "uint32", "int64"} {
+		for _, opt := range []int{0, 2} {
+			schema := fmt.Sprintf("[flags]\nenum Near : %s {\n\tRead = 1;\n\tREAD = 2;\n\tread = 4;\n\tRea = 8;\n\tReadX = 16;\n\tNear = 32;\n"+
+				"\tA1 = READ | 64;\n\tA2 = read | Read;\n\tA3 = Rea | ReadX;\n\tA4 = Near | READ;\n\tA5 = ReadX | read;\n\tA6 = A2 | A3;\n}\n", base)
+			states++
+			trans++
+			tn := exposed("Near", opt == 2)
+			var exps []expectation
+			for _, m := range []struct {
+				name string
+				val  int64
+			}{{"Read", 1}, {"READ", 2}, {"read", 4}, {"Rea", 8}, {"ReadX", 16}, {"Near", 32}, {"A1", 66}, {"A2", 5}, {"A3", 24}, {"A4", 34}, {"A5", 20}, {"A6", 29}} {
+				exps = append(exps, expectation{goName: tn + "_" + m.name, val: bigVal(big.NewInt(m.val)), typ: tn, under: goBase(base), what: "[flags] member " + m.name + " among look-alike names (base " + base + ")"})
+			}
+			consts += int64(checkSchema(run, "flags-look-alike-names|base="+base, schema, opt, exps))
+			outcomes.Add("look-alike|" + base)
+		}
+	}
+
 	// ---- 4. opcodes ------------------------------------------------------------------------------------
 	letters := []byte{'0', 'A', 'z', ' '}
 	var ops []struct {
